@@ -20,7 +20,7 @@ func ZZ_C18_NonBlockingExact(q, entry int) {
 	ch := newChannelWith(context.Background(), pl, tr, ex, 1, q, false).(*channel)
 	pl.(*pipeline).channel = ch
 	for k := 1; k <= q+2; k++ {
-		n, err := zzCall(ch, (entry+k)%5, context.Background(), []byte{byte(k), 0x11})
+		n, err := zzCall(ch, (entry+k)%8, context.Background(), []byte{byte(k), 0x11})
 		if k <= q {
 			vrt.Assert(err == nil && n == 2, "c18-accepts-while-queue-has-room")
 		} else {
@@ -43,9 +43,9 @@ func ZZ_C18_NonBlockingLive(q, nw, entries int) {
 		w := w
 		entry := entries
 		for i := 0; i < w; i++ {
-			entry /= 5
+			entry /= 8
 		}
-		entry %= 5
+		entry %= 8
 		vrt.Go("w"+string(rune('0'+w)), func() {
 			n, err := zzCall(ch, entry, context.Background(), []byte{byte(w + 1), 0x22})
 			if err != nil {
